@@ -58,8 +58,8 @@ PROPS = {
         "assumptions": COMMON_ASSUMPTIONS + ["floats are compared by exact rendering; control points/curves of sliders with two consecutive explicit Catmull segments are excluded as the statement says",
                                              "encoding is skipped (and counted) for maps whose estimated slider-event count exceeds 2e6"],
         "quick": [leg("main", "rel", 16, 3000, timeout=600, max_secs=150), leg("dbg", "dbg", 8, 600, timeout=600, max_secs=150)],
-        "thorough": [leg("main", "rel", 16, 125000, timeout=3600, max_secs=900), leg("dbg", "dbg", 16, 15000, timeout=3600, max_secs=800),
-                     leg("asan", "asan", 8, 5000, timeout=3600, max_secs=700, optional=True)],
+        "thorough": [leg("main", "rel", 16, 400000, timeout=3600, max_secs=900), leg("dbg", "dbg", 16, 40000, timeout=3600, max_secs=800),
+                     leg("asan", "asan", 8, 20000, timeout=3600, max_secs=700, optional=True)],
         "min": {"round_trips": 10000, "second_generation_round_trips": 5000, "sliders_compared": 10000, "mode_taiko": 500, "mode_mania": 500,
                 "mode_catch": 500, "positive_ids": 1000, "class_bundled-whole": 40},
     },
@@ -73,7 +73,7 @@ PROPS = {
                                              "integers for AudioLeadIn, clamped ranges for slider multiplier/tick rate, alpha 255",
                                              "a mode or slider-multiplier edit legitimately changes derived object data, so only scalar fields are compared then; a break edit legitimately changes combo starts, so combo flags are masked then"],
         "quick": [leg("main", "rel", 16, 2000, timeout=600, max_secs=150)],
-        "thorough": [leg("main", "rel", 16, 62500, timeout=3600, max_secs=900)],
+        "thorough": [leg("main", "rel", 16, 600000, timeout=3600, max_secs=900)],
         "min": {"fields_checked_unchanged": 500000, "edit_title": 300, "edit_audio_file": 300, "edit_bookmarks": 300, "edit_breaks": 300,
                 "edit_custom_colors": 300, "edit_mode": 300, "edit_beatmap_id(positive)": 300, "edits_per_case_4": 2000},
     },
@@ -86,7 +86,7 @@ PROPS = {
                  "non-trivial = the map has a hit object or timing point; distinct by FNV-64 of the input bytes"),
         "assumptions": COMMON_ASSUMPTIONS + ["the event-log oracle needs the crate's tracing feature (leg 'main' is built with it); the dbg leg uses oracle (b) only"],
         "quick": [leg("main", "reltr", 16, 4000, timeout=600, max_secs=150), leg("dbg", "dbg", 8, 800, timeout=600, max_secs=150)],
-        "thorough": [leg("main", "reltr", 16, 125000, timeout=3600, max_secs=900), leg("dbg", "dbg", 16, 15000, timeout=3600, max_secs=800)],
+        "thorough": [leg("main", "reltr", 16, 800000, timeout=3600, max_secs=900), leg("dbg", "dbg", 16, 60000, timeout=3600, max_secs=800)],
         "min": {"encodings_checked": 20000, "encoded_lines_parsed": 500000, "event_logs_inspected": 20000, "objects_read_back": 100000},
     },
     "C05": {
@@ -100,7 +100,7 @@ PROPS = {
                  "FNV-64 of the bytes"),
         "assumptions": COMMON_ASSUMPTIONS + ["the framing model is written from the property statement; std's lossy UTF-8/UTF-16 conversions are the trusted text reference"],
         "quick": [leg("main", "rel", 16, 4000, timeout=600, max_secs=120)],
-        "thorough": [leg("main", "rel", 16, 100000, timeout=3600, max_secs=800)],
+        "thorough": [leg("main", "rel", 16, 1500000, timeout=3600, max_secs=800)],
         "min": {"dispatched_lines": 10000, "metamorphic_blank-inserted": 1000, "metamorphic_comment-inserted": 1000,
                 "metamorphic_crlf": 1000, "class_enumerated-transcoded": 1000, "explicit_version_seen": 1000},
     },
@@ -115,7 +115,7 @@ PROPS = {
         "assumptions": COMMON_ASSUMPTIONS + ["the walk that maps dispatched lines to file positions is the framing model of C05"],
         "quick": [leg("main", "reltr", 16, 2500, timeout=600, max_secs=150), leg("dbg", "dbg", 8, 600, timeout=600, max_secs=150),
                   leg("miri", "miri", 8, 3, timeout=900, max_secs=240, pregen=True)],
-        "thorough": [leg("main", "reltr", 16, 62500, timeout=3600, max_secs=900), leg("dbg", "dbg", 16, 10000, timeout=3600, max_secs=800),
+        "thorough": [leg("main", "reltr", 16, 150000, timeout=3600, max_secs=900), leg("dbg", "dbg", 16, 10000, timeout=3600, max_secs=800),
                      leg("miri", "miri", 16, 60, timeout=3600, max_secs=900, pregen=True)],
         "min": {"rejected_General": 200, "rejected_Editor": 200, "rejected_Metadata": 100, "rejected_Difficulty": 200, "rejected_Events": 100,
                 "rejected_TimingPoints": 200, "rejected_Colours": 200, "rejected_HitObjects": 200, "event_log_rejections": 5000},
@@ -128,7 +128,7 @@ PROPS = {
                  "FNV-64 of the input bytes"),
         "assumptions": COMMON_ASSUMPTIONS + ["the projection tables (which fields a decoder shares with Beatmap) are read off the public struct definitions"],
         "quick": [leg("main", "rel", 16, 8000, timeout=600, max_secs=150)],
-        "thorough": [leg("main", "rel", 16, 250000, timeout=3600, max_secs=800)],
+        "thorough": [leg("main", "rel", 16, 700000, timeout=3600, max_secs=800)],
         "min": {"decoder_comparisons": 8000, "inputs_with_objects": 500, "inputs_with_timing_points": 500,
                 "inputs_with_colours": 100, "inputs_with_events": 100},
     },
@@ -142,7 +142,7 @@ PROPS = {
                  "non-trivial = at least one dispatched line, or a file of <= 6 bytes (BOM sniffing); distinct by FNV-64 of the bytes"),
         "assumptions": COMMON_ASSUMPTIONS + ["schedules are deterministic inputs (chunk lists and interrupt placements), not thread interleavings; the crate has no threads"],
         "quick": [leg("main", "rel", 16, 300, timeout=600, max_secs=150)],
-        "thorough": [leg("main", "rel", 16, 3000, timeout=3600, max_secs=800)],
+        "thorough": [leg("main", "rel", 16, 40000, timeout=3600, max_secs=800)],
         "min": {"byte_schedule_pairs": 100000, "interrupts_fired": 2000, "from_path_compared": 50, "from_str_compared": 200,
                 "class_tiny-bomish": 5000, "class_bundled": 100},
     },
@@ -155,7 +155,7 @@ PROPS = {
                  "fired fault; distinct = (file, fault ordinal)"),
         "assumptions": COMMON_ASSUMPTIONS + ["the injected error carries a marker payload so the oracle can tell that exactly this error was returned"],
         "quick": [leg("main", "rel", 16, 60, timeout=600, max_secs=150)],
-        "thorough": [leg("main", "rel", 16, 400, timeout=3600, max_secs=800)],
+        "thorough": [leg("main", "rel", 16, 4000, timeout=3600, max_secs=800)],
         "min": {"faults_injected": 20000, "reader_fault_Other": 500, "reader_fault_WouldBlock": 500, "writer_fault_Error": 1000,
                 "writer_fault_Zero": 1000, "writer_fault_Flush": 20, "reader_faults_one_shot": 2000, "short_write_schedules": 100, "interrupts_fired": 200},
     },
@@ -189,7 +189,7 @@ PROPS = {
                  "non-trivial = the reference result differs from the default map; distinct by FNV-64 of the text"),
         "assumptions": COMMON_ASSUMPTIONS + ["which lines reach which section is taken from the framing model (checked separately by C05)"],
         "quick": [leg("main", "rel", 16, 25000, timeout=600, max_secs=150)],
-        "thorough": [leg("main", "rel", 16, 1500000, timeout=3600, max_secs=900)],
+        "thorough": [leg("main", "rel", 16, 12000000, timeout=3600, max_secs=900)],
         "min": {"records_General": 50000, "records_Editor": 50000, "records_Metadata": 50000, "records_Difficulty": 50000, "records_Events": 50000, "records_Colours": 50000},
     },
     "C12": {
@@ -201,7 +201,7 @@ PROPS = {
                  "separately, strict time order and clamps. non-trivial = at least one line accepted; distinct by FNV-64 of the text"),
         "assumptions": COMMON_ASSUMPTIONS + ["-0.0 and 0.0 are the same time"],
         "quick": [leg("main", "rel", 16, 4000, timeout=600, max_secs=150)],
-        "thorough": [leg("main", "rel", 16, 100000, timeout=3600, max_secs=900)],
+        "thorough": [leg("main", "rel", 16, 1500000, timeout=3600, max_secs=900)],
         "min": {"lines_accepted": 200000, "lines_rejected": 20000, "points_compared": 400000, "cases_with_nan_inherited_line": 5000, "random_cases": 10000},
     },
     "C13": {
@@ -212,7 +212,7 @@ PROPS = {
                  "lookups are probed at every stored time, every midpoint and beyond both ends. non-trivial = history of at least 2 operations; distinct by hash of the history"),
         "assumptions": COMMON_ASSUMPTIONS + ["-0.0 and 0.0 are the same time"],
         "quick": [leg("main", "rel", 16, 2500, timeout=600, max_secs=150), leg("dbg", "dbg", 4, 300, timeout=600, max_secs=120)],
-        "thorough": [leg("main", "rel", 16, 62500, timeout=3600, max_secs=900), leg("dbg", "dbg", 8, 5000, timeout=3600, max_secs=900)],
+        "thorough": [leg("main", "rel", 16, 400000, timeout=3600, max_secs=900), leg("dbg", "dbg", 8, 5000, timeout=3600, max_secs=900)],
         "min": {"operations_checked": 500000, "lookups_checked": 5000000},
     },
     "C14": {
@@ -226,7 +226,7 @@ PROPS = {
         "assumptions": COMMON_ASSUMPTIONS + ["the reference parser is hand-written from the legacy grammar as the statement summarises it"],
         "quick": [leg("main", "rel", 16, 400, timeout=600, max_secs=150), leg("dbg", "dbg", 8, 100, timeout=600, max_secs=150),
                   leg("miri", "miri", 8, 4, timeout=900, max_secs=240, pregen=True)],
-        "thorough": [leg("main", "rel", 16, 9000, timeout=3600, max_secs=900), leg("dbg", "dbg", 16, 1500, timeout=3600, max_secs=800),
+        "thorough": [leg("main", "rel", 16, 25000, timeout=3600, max_secs=900), leg("dbg", "dbg", 16, 1500, timeout=3600, max_secs=800),
                      leg("miri", "miri", 16, 25, timeout=3600, max_secs=900, pregen=True)],
         "min": {"accepted_circle": 20000, "accepted_slider": 20000, "accepted_spinner": 10000, "accepted_hold": 5000, "rejected_lines": 20000,
                 "multi_segment_sliders": 5000, "exhaustive_type_sound_context_cases": 196608},
@@ -242,7 +242,7 @@ PROPS = {
         "assumptions": COMMON_ASSUMPTIONS + ["the decoded control points and curve distances are taken as given (checked by C12/C13 and C16/C17)",
                                              "what a sample takes from a sample point follows SamplePoint::apply as documented (volume if 0, custom index if 0, bank if unspecified)"],
         "quick": [leg("main", "rel", 16, 1500, timeout=600, max_secs=150)],
-        "thorough": [leg("main", "rel", 16, 62500, timeout=3600, max_secs=900)],
+        "thorough": [leg("main", "rel", 16, 150000, timeout=3600, max_secs=900)],
         "min": {"objects_recomputed": 50000, "sliders_recomputed": 15000, "node_sample_sets_recomputed": 50000, "shift_pairs": 20000,
                 "maps_with_unsorted_object_lines": 2000, "maps_with_equal_start_times": 2000, "breaks_followed_by_an_object": 1000,
                 "lookups_exactly_on_a_sample_point": 500},
@@ -257,7 +257,7 @@ PROPS = {
                  "total == unsimplified total. Every adjusted curve is also run through the C19 relations. non-trivial = at least 2 control points; distinct by hash of (mode, points, L)"),
         "assumptions": COMMON_ASSUMPTIONS + ["|natural - L| < f64::EPSILON counts as 'exactly natural' (the statement's own case class)"],
         "quick": [leg("main", "rel", 16, 3000, timeout=600, max_secs=150), leg("dbg", "dbg", 8, 500, timeout=600, max_secs=150)],
-        "thorough": [leg("main", "rel", 16, 75000, timeout=3600, max_secs=900), leg("dbg", "dbg", 16, 8000, timeout=3600, max_secs=800)],
+        "thorough": [leg("main", "rel", 16, 1500000, timeout=3600, max_secs=900), leg("dbg", "dbg", 16, 8000, timeout=3600, max_secs=800)],
         "min": {"adjusted_curves": 200000, "cut": 50000, "extended": 50000, "exactly_natural": 10000, "exception_equal_last_points": 1000,
                 "exception_single_point": 1000, "osu_catmull_totals_compared": 1000},
     },
@@ -273,7 +273,7 @@ PROPS = {
         "assumptions": COMMON_ASSUMPTIONS + ["the oracle is a distance bound, as the property is: a coarser flattening that stays within the derived bound is not reported; "
                                              "the Bezier bound is the provable one for tolerance 0.25 (observed deviations are about 0.2 of it), arc and Catmull bounds are sharp (observed 0.9)"],
         "quick": [leg("main", "rel", 16, 4000, timeout=600, max_secs=150)],
-        "thorough": [leg("main", "rel", 16, 190000, timeout=3600, max_secs=900)],
+        "thorough": [leg("main", "rel", 16, 700000, timeout=3600, max_secs=900)],
         "min": {"arcs_judged_tightly": 20000, "arc_collinear_fallback": 500, "arc_enormous_fallback": 500, "beziers_judged": 10000, "catmull_judged": 5000,
                 "catmull_osu_judged": 5000, "linear_judged": 5000, "joints_checked": 5000},
     },
@@ -297,7 +297,7 @@ PROPS = {
                  "non-trivial = path of at least 2 points; distinct by hash of the path"),
         "assumptions": COMMON_ASSUMPTIONS + ["NaN progress is outside the statement's domain"],
         "quick": [leg("main", "rel", 16, 8000, timeout=600, max_secs=150)],
-        "thorough": [leg("main", "rel", 16, 160000, timeout=3600, max_secs=900)],
+        "thorough": [leg("main", "rel", 16, 6000000, timeout=3600, max_secs=900)],
         "min": {"c19_curves": 50000, "c19_vertex_probes": 1000000, "c19_pair_probes": 500000, "c19_zero_length_curves": 2000},
     },
     "C20": {
@@ -311,7 +311,7 @@ PROPS = {
                  "One evaluation = one parameter set; distinct by hash of the parameters"),
         "assumptions": COMMON_ASSUMPTIONS + ["negative or NaN length is outside the domain (length comes from Curve::dist() >= 0)"],
         "quick": [leg("main", "rel", 16, 6000, timeout=600, max_secs=150), leg("dbg", "dbg", 8, 1000, timeout=600, max_secs=150)],
-        "thorough": [leg("main", "rel", 16, 300000, timeout=3600, max_secs=900), leg("dbg", "dbg", 16, 20000, timeout=3600, max_secs=800)],
+        "thorough": [leg("main", "rel", 16, 6000000, timeout=3600, max_secs=900), leg("dbg", "dbg", 16, 20000, timeout=3600, max_secs=800)],
         "min": {"events_compared": 2000000, "streams_with_ticks": 50000, "abandoned_iterators": 10000, "encoder_caller_cases": 1000},
     },
 }
